@@ -141,6 +141,49 @@ impl TimeStrategy {
     }
 
     fn is_force_stopped(&self) -> bool {
+        #[cfg(jgilchrist_tcheran_verif)]
+        if verif_hooks::poll() {
+            return true;
+        }
+
         self.force_stop.load(Ordering::Relaxed)
+    }
+
+    /// Verification hook: the computed (soft, hard) limits, read-only.
+    #[cfg(jgilchrist_tcheran_verif)]
+    pub fn verif_limits(&self) -> (Duration, Duration) {
+        (self.soft_stop, self.hard_stop)
+    }
+}
+
+/// Verification hook (compiled only with `--cfg jgilchrist_tcheran_verif`): counts how often the
+/// stop flag is consulted on this thread and can make it read true from the k-th consultation on.
+/// Inert unless `arm` is called with a non-zero countdown.
+#[cfg(jgilchrist_tcheran_verif)]
+pub mod verif_hooks {
+    use std::cell::Cell;
+
+    thread_local! {
+        static POLLS: Cell<u64> = const { Cell::new(0) };
+        static STOP_AT: Cell<u64> = const { Cell::new(0) };
+    }
+
+    /// Reset the poll counter; `stop_at` = 0 never stops, k > 0 stops from the k-th poll on.
+    pub fn arm(stop_at: u64) {
+        POLLS.with(|p| p.set(0));
+        STOP_AT.with(|s| s.set(stop_at));
+    }
+
+    pub fn polls() -> u64 {
+        POLLS.with(Cell::get)
+    }
+
+    pub(super) fn poll() -> bool {
+        let n = POLLS.with(|p| {
+            p.set(p.get() + 1);
+            p.get()
+        });
+        let k = STOP_AT.with(Cell::get);
+        k != 0 && n >= k
     }
 }
